@@ -61,9 +61,9 @@ package csv
 //@   ensures [present-untouched] result != "" ==> c.f.currentRow.missingKeys == old(c.f.currentRow.missingKeys)
 //@   ensures [monotone] len(c.f.currentRow.missingKeys) >= old(len(c.f.currentRow.missingKeys))
 //@   ensures [cells-kept] c.f.currentRow.cells == old(c.f.currentRow.cells) && c.f.currentRow == old(c.f.currentRow)
-//@   ensures [cell-content-kept] forall k int :: 0 <= k && k < len(c.f.currentRow.cells) ==> c.f.currentRow.cells[k] == old(c.f.currentRow.cells[k])
 //@   ensures [shape-kept] rowShape(c.f)
 //@   ensures [keys-storage] cap(c.f.currentRow.missingKeys) == 0 || (obj(c.f.currentRow.missingKeys) == old(obj(c.f.currentRow.missingKeys)) && old(cap(c.f.currentRow.missingKeys)) > 0) || fresh(c.f.currentRow.missingKeys)
+//@   ensures [present-changes-nothing] result != "" ==> sameheap("string") && sameheap("row")
 //@   assigns c.f.currentRow.missingKeys, elems(c.f.currentRow.missingKeys)
 
 //@ func (OptionalColumn).Read
